@@ -2,7 +2,9 @@ import Sessions.FactsPinsBase
 /-! Source pin: see FactsPinsBase.lean. -/
 namespace FactsPins
 
-/-- `Sessions/Model/Cache.lean` was transcribed from exactly this text -/
-theorem cache_source_matches_model : pinned ["cache.compact", "cache.Get", "cache.Set", "cache.Delete", "PurgeSessions"] = true := by decide
+/-- the two cache functions with loops over the map (`Sx.compact`, `Sx.purge`) were transcribed from exactly this text.
+`cache.Get`, `cache.Set` and `cache.Delete` are no longer pinned: they are translated on every run and proved equal to
+`Sx.cacheGet/cacheSet/cacheDelete` (`FactsIrCache`), and their locking is the subject of `FactsCacheAtomic`. -/
+theorem cache_source_matches_model : pinned ["cache.compact", "PurgeSessions"] = true := by decide
 
 end FactsPins
